@@ -34,7 +34,7 @@ ASSUMPTIONS = ['integer / dyadic regime: product over cores of max(1, sum|scaled
                'add_many is compared to its rounding accuracy e only (C02 owns its error bound)']
 
 U = 2.0 ** -53
-NUMS = [0, 1, -1, 2, 0.5, -3.0]
+NUMS = [0, 1, -1, 2, 0.5, -3.0, 1e-17, -2e-30]
 
 
 def is_num(x):
@@ -337,6 +337,27 @@ def check_leaf(c):
     case = {k: c[k] for k in ('shape', 'ranks', 'pat', 'seed', 'depth', 'partners')}
     res.ev()
     observe(res, case, root, partners[0], tags)
+    # batches longer than any plausible internal block size (2^14, 2^15): every row must still be evaluated
+    grid = space.grid_array(shape)
+    for L in (16385, 40001):
+        res.ev()
+        big = np.tile(grid, (L // len(grid) + 1, 1))[:L]
+        want = root.D[tuple(big.T)]
+        ex = exact_regime(root.Y)
+        tl = 0.0 if ex else 64.0 * 64 * U * float(root.B.max())
+        with warnings.catch_warnings():
+            warnings.simplefilter('ignore')
+            gm = teneva.get_many(root.Y, big)
+            gb = teneva.get(root.Y, big)
+            ydat = want * 1.5 + 1.0
+            aod = teneva.accuracy_on_data(root.Y, big, ydat)
+        res.check(gm.shape == want.shape and np.all(np.abs(gm - want) <= tl) and np.all(np.abs(gb - want) <= tl), 'get_many.long_batch', dict(case, rows=L),
+                  lambda: 'batch of %d rows: %d entries differ' % (L, int(np.sum(np.abs(gm - want) > tl)) if gm.shape == want.shape else -1), tags)
+        nd = float(np.linalg.norm(ydat))
+        if nd > 0:
+            wantd = float(np.linalg.norm(want - ydat)) / nd
+            res.check(abs(aod - wantd) <= 1e-10 * (1 + wantd), 'accuracy_on_data.long_batch', dict(case, rows=L),
+                      lambda: 'data set of %d rows: accuracy_on_data %r vs %r' % (L, aod, wantd), tags)
     nums = c.get('nums', NUMS)
     while frontier:
         S = frontier.pop(0)
@@ -348,7 +369,7 @@ def check_leaf(c):
                 for name in ('add', 'sub', 'mul'):
                     for side in 'lr':
                         moves.append(((name, side), P))
-            for v in (nums if S.depth == 0 else nums[:4]):
+            for v in (nums if S.depth == 0 else nums[:4] + nums[6:7]):
                 for name in ('add', 'sub', 'mul'):
                     for side in 'lr':
                         moves.append(((name, side), v))
@@ -424,7 +445,7 @@ def _leaves(tier, seed):
                     if tier == 'quick' and d == 2 and pat == 'intB':
                         dd = 1
                     out.append(dict(shape=sh, ranks=rk, pat=pat, depth=dd, partners=[['intB', 2], ['gen', 1]], seed=seed,
-                                    nums=NUMS if dd <= 2 else NUMS[:4]))
+                                    nums=NUMS if dd <= 2 else NUMS[:4] + NUMS[6:7]))
     for sh, rk in (([7, 5], [1, 4, 1]), ([2, 9, 3], [1, 2, 5, 1]), ([4, 1, 6, 2], [1, 3, 3, 2, 1]), ([2] * 5, [1, 2, 3, 3, 2, 1])):
         for pat in pats:
             out.append(dict(shape=sh, ranks=rk, pat=pat, depth=1, partners=[['intB', 2], ['gen', 1]], seed=seed, nums=NUMS))
